@@ -507,6 +507,10 @@ def AR_2(dul: "DULServiceProvider") -> str:
     # Send A-RELEASE indication primitive
     dul.to_user_queue.put(pdu.to_primitive())
 
+    # End any pending wait for a DIMSE response (the peer will not send
+    #   one any more) so that the release request can be answered
+    dul.assoc.dimse.msg_queue.put((None, None))
+
     return "Sta8"
 
 
